@@ -214,6 +214,40 @@ Example C14_ex_drain :
   iterations_after_finish [RNotReady; RData] = 1 /\ closes_after_finish [RData; REmpty] = true.
 Proof. vm_compute. auto. Qed.
 
+(** The AGE of the command.  [Runner.wait] ([Model.WaitLoopModel]: one look at the process
+    per iteration, [time.sleep(input_sleep)] between two looks; validated against every
+    duration the thread calling run() hands to time.sleep, [Corr.C14Corr.corr]) never pauses
+    longer than [input_sleep] -- for EVERY input_sleep and EVERY sequence of looks, i.e.
+    however long the command has been running (the executable spec [wait_ok] on the model). *)
+From InvokeVerif Require Import Model.WaitLoopModel Spec.C14WaitSpec Proofs.C14_wait.
+Theorem C14_wait_pauses_at_most_input_sleep :
+  forall input_sleep looks, wait_ok input_sleep (wait_loop input_sleep looks) = true.
+Proof. exact wait_meets_spec. Qed.
+
+(** ... the loop has no memory: after [n] looks that found the command running it goes on
+    exactly like a fresh one (no backoff, no warm-up) *)
+Theorem C14_wait_ageless :
+  forall input_sleep n looks,
+    wait_loop input_sleep (repeat false n ++ looks) = repeat input_sleep n ++ wait_loop input_sleep looks.
+Proof. exact wait_loop_ageless. Qed.
+
+(** ... so, in the model's time (pauses exact, a look costs nothing -- the OS may add to
+    both; the real latencies are measured by the real-child runs), a command that ends
+    at time [t] after the loop was entered -- by itself or by the timeout's kill -- is
+    noticed at or after [t] and LESS than one [input_sleep] later, whatever [t] is. *)
+Theorem C14_exit_noticed_within_input_sleep :
+  forall input_sleep t, (0 < input_sleep)%N ->
+    noticed_promptly input_sleep t (noticed_at input_sleep t) = true.
+Proof. exact exit_noticed_promptly. Qed.
+
+Example C14_ex_wait :
+  wait_loop 10000 [false; false; false; true; false] = [10000; 10000; 10000]%N /\
+  wait_sleeps 500 4 = [500; 500; 500; 500]%N /\
+  wait_ok 10000 [10000; 10000; 20000]%N = false /\
+  noticed_at 10000 4200000 = 4200000%N /\ noticed_at 10000 4200001 = 4210000%N /\
+  noticed_promptly 10000 4200001 5540000 = false.
+Proof. vm_compute. repeat split; reflexivity. Qed.
+
 (** Non-vacuity *)
 Example C14_ex_pending_input :
   let c := mkCfg false true true false false false false false in
